@@ -169,11 +169,25 @@ class C12(Prop):
             # close() at every point of the history
             for cut in range(1, len(ops) + 1):
                 cases.append({"kind": "prefix", "ops": ops[:cut], "talking": rng.random() < 0.3, "late_fail": rng.random() < 0.5})
+        # close() issued in the very loop iteration in which one reconnect attempt hands over to the next
+        # (the finished task is still registered when cancel_tasks() runs)
+        from pyplumio.connection import RECONNECT_TIMEOUT
+        for k in (1, 2, 3, 4):
+            for lf in (True, False):
+                # (the last sleep of the history is started after the attempt's own back-off sleep, so that the attempt wakes first)
+                cases.append({"kind": "handover", "ops": [["connect", 0], ["loss", 0, False, int(RECONNECT_TIMEOUT) * k - 7], ["silence", 7]],
+                              "talking": False, "late_fail": lf, "repeat": 10})
         return cases
 
     def run_impl(self, c):
         try:
             r = vloop.run(_run, c["ops"], c["talking"], c.get("late_fail", False))
+            # which task cancel_tasks() meets first depends on the addresses of the task objects: repeat the
+            # history and keep the worst outcome
+            for _ in range(c.get("repeat", 1) - 1):
+                r2 = vloop.run(_run, c["ops"], c["talking"], c.get("late_fail", False))
+                if (not r2["result"][0], r2["result"][2], not r2["result"][3]) > (not r["result"][0], r["result"][2], not r["result"][3]):
+                    r = r2
         except vloop.Deadlock:
             return {"state": None, "result": [False, 0, 0, False], "left_names": ["quiescent-deadlock"]}
         c["_state"] = r["state"]
